@@ -15,8 +15,9 @@ import (
 type abortErr struct{ msg string }   // unmodelled construct: path inconclusive
 type pathEnd struct{ kind string }   // path ends (assume-false, violation, infeasible, unwind, blocked)
 type goPanic struct {                // a Go-level panic in interpreted code
-	val Value
-	msg string
+	val   Value
+	msg   string
+	where string
 }
 
 func abort(msg string) abortErr { return abortErr{msg} }
@@ -104,6 +105,7 @@ type Interp struct {
 	ptrIDs  map[*Value]int
 	guardsOff bool
 	quotedOf map[string]Term
+	rtypes   map[string]*Value
 	lockCount map[*Value]int
 }
 
@@ -536,6 +538,10 @@ func (in *Interp) runFrame(fr *frame) {
 		if !ok {
 			panic(r) // engine control flow: propagate untouched
 		}
+		if gp.where == "" {
+			in.cur = fr
+			gp.where = in.where()
+		}
 		fr.panicking = true
 		fr.panicVal = gp
 		in.cur = fr
@@ -880,6 +886,17 @@ func (in *Interp) binop(op token.Token, xt types.Type, a, b Value) Value {
 		}
 	}
 	signed := isSigned(xt)
+	if x.S == SInt || y.S == SInt {
+		// mathematical-integer carried int64 (ghost clock quantities): no wrap-around is modelled
+		x, y = toInt(x, signed), toInt(y, signed)
+		switch op {
+		case token.ADD, token.SUB, token.MUL:
+			return intBin(op.String(), x, y)
+		case token.LSS, token.LEQ, token.GTR, token.GEQ:
+			return intCmp(op.String(), x, y)
+		}
+		panic(abort("operator " + op.String() + " on a mathematical-integer value"))
+	}
 	switch op {
 	case token.ADD, token.SUB, token.MUL, token.AND, token.OR, token.XOR, token.AND_NOT:
 		return bvBin(op.String(), x, y, signed)
@@ -914,6 +931,12 @@ func (in *Interp) convert(src, dst types.Type, v Value) Value {
 		if db, ok := du.(*types.Basic); ok {
 			switch {
 			case sb.Info()&types.IsInteger != 0 && db.Info()&types.IsInteger != 0:
+				if t := v.(Term); t.S == SInt {
+					if intWidth(db) != 64 {
+						panic(abort("narrowing conversion of a mathematical-integer value"))
+					}
+					return t
+				}
 				return bvConv(v.(Term), intWidth(db), sb.Info()&types.IsUnsigned == 0)
 			case sb.Info()&types.IsString != 0 && db.Info()&types.IsString != 0:
 				return v
@@ -1481,4 +1504,11 @@ func (in *Interp) where() string {
 		fr = fr.caller
 	}
 	return strings.Join(parts, " <- ")
+}
+
+func toInt(t Term, signed bool) Term {
+	if t.S == SInt {
+		return t
+	}
+	return bvToInt(t, signed)
 }
